@@ -66,8 +66,8 @@ func iosConfig(name string, ls []absLine) string {
 
 type keyPair struct{ a, b []string }
 
-func (p *keyPair) LenA() int          { return len(p.a) }
-func (p *keyPair) LenB() int          { return len(p.b) }
+func (p *keyPair) LenA() int           { return len(p.a) }
+func (p *keyPair) LenB() int           { return len(p.b) }
 func (p *keyPair) Equal(i, j int) bool { return p.a[i] == p.b[j] }
 
 func ranges(a, b []absLine, ios bool) string {
@@ -451,6 +451,9 @@ func run(ctx *Ctx) *Result {
 		} else if r.Chance(8) {
 			a, b = genMoveDownIntoMixedRun(r)
 			res.Count(be + ":template:move-down-into-mixed-insert-run")
+		} else if r.Chance(8) {
+			a, b = genTwoSplitsMove(r)
+			res.Count(be + ":template:two-splits-move-between-lower-parts")
 		}
 		runCase(aclCase{Backend: be, A: a, B: b})
 	}
@@ -458,7 +461,9 @@ func run(ctx *Ctx) *Result {
 }
 
 func corpus() []aclCase {
-	p := func(act, proto string, src, port int) absLine { return absLine{Act: act, Proto: proto, Src: src, Port: port} }
+	p := func(act, proto string, src, port int) absLine {
+		return absLine{Act: act, Proto: proto, Src: src, Port: port}
+	}
 	return []aclCase{
 		// F-C14: move down across an overlapping deny that is deleted later
 		{A: []absLine{p("permit", "tcp", 1, 22), p("deny", "tcp", 2, 0), p("permit", "udp", 0, 53)},
